@@ -2,5 +2,6 @@ SPECIFICATION Spec
 CONSTANTS
   OffsMod = 65536
   Part = "single"
+  Deep = FALSE
 INVARIANTS Emit
 CHECK_DEADLOCK FALSE
